@@ -5,7 +5,7 @@ EXTENDS SyncRound, Json
 \* cutoff 8, reference cap 20, peer cap 40 in the basic admissible setting
 ValsExh  == {-128, -12, 0, 8, 28, 60}
 ValsMid  == {-128, -60, -12, 0, 8, 28, 60}
-ValsDeep == {-128, -60, -28, -8, 0, 4, 12, 60, 127}
+ValsDeep == {-128, -60, -12, 0, 8, 28, 127}
 ValsGen  == {-128, -60, -44, -40, -28, -24, -21, -20, -12, -8, -4, 0, 4, 8, 9, 12, 20, 24, 28,
              40, 41, 44, 60, 124, 127}
 
@@ -29,13 +29,16 @@ BootGrid == Grid({1}, {1}, {3, 4, 5, 8}, {4, 8, 9, 10, 14}, {8}, {-8, 0, 8, 9}, 
 AdmBasic == Grid(0 .. NRef, 0 .. NPeer, {5}, {10}, {8}, {8}, {4}, {2})
 AdmMore  == Grid({NRef}, {NPeer}, {5, 8}, {14}, {0, 8}, {8, 9}, {2}, {2})
            \cup Grid({NRef}, {0, NPeer}, {6}, {11}, {8}, {8}, {2}, {1})
+\* three of them for the exhaustive deep run
+AdmFew   == {Cfg(NRef, NPeer, 5, 14, 0, 9, 2, 2), Cfg(NRef, NPeer, 8, 14, 8, 8, 2, 2),
+             Cfg(NRef, NPeer, 6, 11, 8, 8, 2, 1)}
 
 CfgsBoot == BootGrid
 CfgsExh  == AdmBasic \cup BootGrid
-CfgsDeep == AdmBasic \cup AdmMore \cup BootGrid
+CfgsDeep == AdmBasic \cup AdmFew \cup BootGrid
 CfgsGen  == AdmBasic \cup AdmMore
 
-ASSUME \A c \in AdmBasic \cup AdmMore : Admissible(c)
+ASSUME \A c \in AdmBasic \cup AdmMore \cup AdmFew : Admissible(c)
 
 \* ---- seeded sampling for `tlc -simulate` (cfg: OutcomeVecs <- GenVecs,
 \* Arrivals <- GenArrivals): one random member of the specification's choice
